@@ -95,10 +95,12 @@ def showRef (bs : List UInt8) : String :=
   let unit : List Spec.MacroRef.PTok :=
     r.1.map (fun t => ⟨t.kind, t.lit, t.space⟩) ++ (match r.2 with | none => [] | some _ => [⟨.TNONE, none, false⟩])
   let o := Spec.MacroRef.expandUnit 50000 unit
+  let o2 := Spec.MacroRef.expandUnit 50000 unit true
+  let differs := o.toks.map (·.key) != o2.toks.map (·.key) || o.err != o2.err
   let toks := o.toks.map fun t => showTok (PP.toKeyword ⟨t.kind, t.lit, t.space, false⟩)
   let e := match o.err with | none => "" | some e => " !" ++ refErr e
-  let fl := o.flags.eraseDups
-  let f := if fl.isEmpty then "" else " @" ++ ",".intercalate (fl.map refFlag)
+  let fl := (o.flags.eraseDups.map refFlag) ++ (if differs then ["strictDiffers"] else [])
+  let f := if fl.isEmpty then "" else " @" ++ ",".intercalate fl
   " ".intercalate toks ++ e ++ f
 
 def showLex (bs : List UInt8) : String :=
